@@ -494,6 +494,9 @@ func (wf *Workflow[I, O]) compile(ctx context.Context, options *graphCompileOpti
 
 	// validate every branch before the first one is pushed into the graph: a failed Compile leaves nothing behind
 	for _, wb := range wf.workflowBranches {
+		if wb.GraphBranch == nil {
+			return nil, fmt.Errorf("branch from node '%s' is nil", wb.fromNodeKey)
+		}
 		for endNode := range wb.endNodes {
 			if _, ok := wf.workflowNodes[endNode]; !ok && endNode != END {
 				return nil, fmt.Errorf("branch end node '%s' needs to be added to workflow first", endNode)
